@@ -448,6 +448,7 @@ pub struct Stats {
     pub budget_skipped: u64,
     pub reuse_checks: u64,
     pub equivalence_groups_faulted: u64,
+    pub long_texts: u64,
     pub digest: u64,
 }
 
@@ -832,13 +833,24 @@ fn job(seed: u64, i: u64) -> (JobOut, Option<Violation>) {
         let ci = rng.chance(1, 10);
         let Some(re) = compile_opt(&pattern, ci) else { continue };
         for _ in 0..3 {
-            let text = gen::gen_text(&mut rng, 8);
+            let text = if rng.chance(1, gen::long_text_odds()) { gen::gen_long_text(&mut rng) } else { gen::gen_text(&mut rng, 8) };
+            let long = text.len() > 40;
+            if long {
+                out.st.long_texts += 1;
+            }
             let m = fault_free_matches(&re, &text);
             if m.find.iter().any(|i| matches!(i, Item::Panic(_))) || m.caps.iter().any(|c| matches!(c, Outcome::Panic(_))) {
                 continue; // C05's business
             }
             // limits 0..3 as in the property's quantifier, and now and then "practically unlimited"
-            let n = if rng.chance(1, 12) { *rng.pick(&[usize::MAX, usize::MAX / 2 + 1, 1 << 40]) } else { rng.below(4) };
+            let n = if rng.chance(1, 12) {
+                *rng.pick(&[usize::MAX, usize::MAX / 2 + 1, 1 << 40])
+            } else if long && rng.chance(1, 2) {
+                // a long text has dozens of matches: limits in the middle of them and one past the last
+                rng.below(m.find.len() + 2)
+            } else {
+                rng.below(4)
+            };
             let rep = gen_rep(&mut rng, &re);
             let entry = match rng.below(8) {
                 0 => Entry::Replacen,
@@ -950,6 +962,7 @@ fn add(a: &mut Stats, b: &Stats) {
     a.budget_skipped += b.budget_skipped;
     a.reuse_checks += b.reuse_checks;
     a.equivalence_groups_faulted += b.equivalence_groups_faulted;
+    a.long_texts += b.long_texts;
 }
 
 pub fn digest(seed: u64, n: u64, workers: usize) -> Vec<u64> {
@@ -1014,6 +1027,7 @@ pub fn run(opts: &Opts) -> i32 {
             "owned_results": st.owned_results,
             "replacer_kind_equivalence_groups": st.equivalence_groups,
             "replacer_objects_reused_through_by_ref": st.reuse_checks,
+            "texts_of_40_to_250_characters": st.long_texts,
             "replacer_kind_equivalence_groups_under_a_limit_fault": st.equivalence_groups_faulted,
             "calls_skipped_over_instruction_budget": st.budget_skipped,
             "panicking_wrappers_compared": st.wrappers_compared,
